@@ -265,6 +265,46 @@ pub fn programs(tier: &str) -> Vec<Program> {
     v
 }
 
+/// Generated family: every unordered pair (triple) of client programs of 1..=max_len updates whose expected
+/// generations range over {g0-1, g0, g0+1, g0+2}; the state tag is derived from (client, index).
+pub fn generated_programs(initial_gen: u64, clients: usize, max_len: usize, backend: &str) -> Vec<Program> {
+    let exps: Vec<u64> = (initial_gen.saturating_sub(1)..=initial_gen + 2).collect();
+    let mut seqs: Vec<Vec<u64>> = vec![vec![]];
+    let mut all: Vec<Vec<u64>> = Vec::new();
+    for _ in 0..max_len {
+        let mut next = Vec::new();
+        for q in &seqs {
+            for e in &exps {
+                let mut n = q.clone();
+                n.push(*e);
+                next.push(n);
+            }
+        }
+        all.extend(next.iter().cloned());
+        seqs = next;
+    }
+    let tagged = |ci: usize, q: &Vec<u64>| -> Vec<(u64, u8)> { q.iter().enumerate().map(|(i, e)| (*e, ((ci * 2 + i) % 3) as u8)).collect() };
+    let mut v = Vec::new();
+    let n = all.len();
+    for i in 0..n {
+        for j in i..n {
+            if clients == 2 {
+                v.push(Program { name: format!("gen/g{initial_gen}/{backend}/{i}x{j}"), initial_gen, clients: vec![tagged(0, &all[i]), tagged(1, &all[j])], backend: backend.into() });
+            } else {
+                for k in j..n {
+                    v.push(Program {
+                        name: format!("gen/g{initial_gen}/{backend}/{i}x{j}x{k}"),
+                        initial_gen,
+                        clients: vec![tagged(0, &all[i]), tagged(1, &all[j]), tagged(2, &all[k])],
+                        backend: backend.into(),
+                    });
+                }
+            }
+        }
+    }
+    v
+}
+
 pub fn factory(prog: Program) -> ScenarioFactory {
     Arc::new(move || Box::new(C13Scenario::new(prog.clone())) as Box<dyn Scenario>)
 }
@@ -341,6 +381,53 @@ pub fn run(tier: &str) -> i32 {
             prog.name, st.executions, st.states, st.pruned, st.max_depth, st.outcomes.len(), st.wall_s, if st.capped { " CAPPED" } else { "" }
         );
         rep.absorb_explore(&prog.name, &serde_json::to_value(&prog).unwrap(), &st, cfg.bounds);
+    }
+    // generated families
+    {
+        let thorough = tier == "thorough";
+        let mut fams: Vec<(String, Vec<Program>, u32)> = Vec::new();
+        for g in [0u64, 2] {
+            if thorough {
+                fams.push((format!("2 clients x 1..=3 updates, shard at generation {g}, object-store"), generated_programs(g, 2, 3, "object-store"), 1000));
+            } else {
+                fams.push((format!("2 clients x 1..=2 updates, shard at generation {g}, object-store"), generated_programs(g, 2, 2, "object-store"), 1000));
+                fams.push((format!("2 clients x 3 updates each (every 9th pair), shard at generation {g}, object-store"), generated_programs(g, 2, 3, "object-store").into_iter().filter(|p| p.clients[0].len() == 3 && p.clients[1].len() == 3).step_by(9).collect(), 1000));
+            }
+            fams.push((format!("2 clients x 1..=2 updates, shard at generation {g}, in-memory"), generated_programs(g, 2, 2, "in-memory"), 1000));
+            if thorough {
+                fams.push((format!("3 clients x 1..=2 updates, shard at generation {g}, object-store"), generated_programs(g, 3, 2, "object-store"), 4));
+            } else {
+                fams.push((format!("3 clients x 1 update, shard at generation {g}, object-store"), generated_programs(g, 3, 1, "object-store"), 4));
+            }
+        }
+        for (name, progs, pre) in fams {
+            let t0 = std::time::Instant::now();
+            let bounds = Cost { preempt: pre, ..Cost::ZERO };
+            let os = progs.first().map(|p| p.backend == "object-store").unwrap_or(true);
+            let stats = explore_many(progs.iter().map(|p| factory(p.clone())).collect(), &|_| ExploreConfig {
+                bounds,
+                use_cache: os,
+                wall_cap: Duration::from_secs(900),
+                selftest: 1,
+                ..Default::default()
+            });
+            let (mut ex, mut stt, mut tr, mut outc) = (0u64, 0u64, 0u64, 0u64);
+            for (p, st) in progs.iter().zip(stats.iter()) {
+                ex += st.executions;
+                stt += st.states;
+                tr += st.transitions;
+                outc += st.outcomes.len() as u64;
+                conflict |= st.flags.contains_key("cas_conflict");
+                stale |= st.flags.contains_key("stale_rejected");
+                rep.absorb_explore_compact(&p.name, &serde_json::to_value(p).unwrap(), st, bounds);
+            }
+            println!("  C13 generated: {name}: {} programs executions={ex} states={stt} outcomes={outc} {:.1}s", progs.len(), t0.elapsed().as_secs_f64());
+            let scen = rep.coverage.entry("scenarios".to_string()).or_insert_with(|| json!([]));
+            if let Some(a) = scen.as_array_mut() {
+                a.push(json!({"scenario": format!("generated family: {name}"), "programs": progs.len(), "expected_generations": "g0-1 ..= g0+2",
+                    "bounds_completed": {"preemptions": if pre >= 1000 { json!("unbounded") } else { json!(pre) }}, "executions": ex, "states": stt, "transitions": tr, "distinct_outcomes_summed": outc}));
+            }
+        }
     }
     router_histories(&mut rep, if tier == "thorough" { 7 } else { 5 });
     rep.set("rule", "an execution = one complete interleaving of the clients' requests (object-store client: every GET/PUT; in-memory client: every call); distinct = distinct state fingerprints / tree nodes; router part: every sequence of updates up to the depth");
